@@ -231,6 +231,11 @@ EDGE = [0, 1, 2, 3, 4, 8, 0x10, 0x3C, M32, M32 - 1, M32 - 3, M32 - 7, 0xFFFFFFF0
 RETURN_ROWS = ('RFE_A1', 'RFE_T1', 'RFE_T2', 'LDM_eret_A1', 'SRS_A1', 'SRS_T1', 'SRS_T2', 'LDM_user_A1', 'STM_user_A1')
 
 
+def _shape(row, w, entropy):
+    from vf.props import c03
+    return c03.shape_list(row, w, entropy)          # register lists: single / base only / base lowest / everything ... (banked bases in the user-bank forms)
+
+
 def wrap_tweak(rng, row, w, case):
     if row.name in RETURN_ROWS and rng.random() < 0.8:
         # banking across an exception return: plausible stacked PSR / SPSR, base in mapped memory (see C12's generator)
@@ -269,7 +274,7 @@ def nontrivial(res):
     return bool(classify(res, None))
 
 
-PLAN = e1prop.Plan('C10', WRAP_ROWS, cfgs=('v6', 'v7', 'v5', 'v7-tee', 'v7-virt'), classify=classify, nontrivial=nontrivial, tweak_case=wrap_tweak,
+PLAN = e1prop.Plan('C10', WRAP_ROWS, cfgs=('v6', 'v7', 'v5', 'v7-tee', 'v7-virt'), classify=classify, nontrivial=nontrivial, tweak_case=wrap_tweak, tweak_word=_shape,
                    case_kw=lambda rng, row: dict({'mpu': False, 'mmu': False, 'e': 1 if rng.random() < 0.25 else 0, 'code_base': rng.choice((0, 0xFFFFFF00, 0xFFFF0000, 0x8000, 0x7FFFFF80))},
                                                 **({'mode': rng.choice(('svc', 'irq', 'fiq', 'abt', 'und')), 'code_base': 0x8000} if row.name in RETURN_ROWS else {})))
 
